@@ -56,7 +56,20 @@ def gen(rng, tier):
                 case["routes"] = info["routes"][:1]
             else:
                 case.update(strict=False, V=1, L=max(3, info["Lmin"]))
-        case["feas"] = rng.random() < 0.4
+        if k % 20 == 2:
+            # route (arc) costs of both signs that CANCEL exactly: the sum of the costs is zero although no cost is
+            c1, c2 = Fraction(rng.randint(1, 12), 4), Fraction(rng.randint(0, 8), 4)
+            form = rng.choice(["path", "path", "arc", "seq"])
+            spec = dict(nodes=[dict(name="D", demand="0", lo="0", hi="inf"), dict(name="A", demand="1", lo="0", hi="4"), dict(name="B", demand="1", lo="0", hi="4")],
+                        arcs=[["D", "A", "1", fs(c1)], ["A", "D", "1", fs(c2)], ["D", "B", "1", fs(-c1)], ["B", "D", "1", fs(-c2)]], cap="4", init="4")
+            case = dict(form=form, spec=spec, seed=rng.randrange(10 ** 6))
+            if form == "arc":
+                case["grid"] = ["0", "1", "2"]
+            elif form == "path":
+                case["routes"] = [["D", "A", "D"], ["D", "B", "D"]]
+            else:
+                case.update(strict=False, V=2, L=3)
+        case["feas"] = rng.random() < 0.4 and k % 20 != 2
         rho = rng.choice(RHOS)
         case["rho"] = None if rho is None else fs(rho)
         if rho is not None and rho.denominator == 1:
